@@ -241,7 +241,7 @@ Example c11_choices_retype_deviation :
   (exists k, import_key O_yes KOct (ex_oct [(K "key_ops", PStr (asc "sign"))]) [] = Ok k) /\
   (exists k, import_key O_yes KOct (ex_oct [(K "use", PList [PStr (asc "sig")])]) [] = Ok k) /\
   import_key O_yes KOct (ex_oct [(K "use", PStr (asc "sig")); (K "key_ops", PStr (asc "sign"))]) [] = Err EValue /\
-  import_key O_yes KOct (ex_oct [(K "use", PList [PStr (asc "sig")]); (K "key_ops", PList [PStr (asc "sign")])]) [] = Err EType.
+  import_key O_yes KOct (ex_oct [(K "use", PList [PStr (asc "sig")]); (K "key_ops", PList [PStr (asc "sign")])]) [] = Err EValue.
 Proof. exact choices_retype_witness. Qed.
 
 Print Assumptions c11_tables.
